@@ -32,9 +32,23 @@ func decoderAPI(useNumber, disallow bool) api {
 	if disallow {
 		name += "+DisallowUnknownFields"
 	}
+	// the document is preceded by white space that puts its end near a refill boundary of the
+	// Decoder's read buffer (a document is then framed from several reads)
+	pad := func(doc []byte) []byte {
+		h := core.HashBytes(doc)
+		if h%3 != 0 || len(doc) == 0 || len(doc) > 4000 {
+			return doc
+		}
+		boundary := []int{4096, 32768, 65536}[h/3%3]
+		n := boundary - len(doc) + int(h/9%uint64(len(doc)+2)) - 1
+		if n < 0 {
+			return doc
+		}
+		return append(bytes.Repeat([]byte(" "), n), doc...)
+	}
 	return api{name,
 		func(doc []byte, t any) error {
-			d := json.NewDecoder(bytes.NewReader(doc))
+			d := json.NewDecoder(bytes.NewReader(pad(doc)))
 			if useNumber {
 				d.UseNumber()
 			}
@@ -44,7 +58,7 @@ func decoderAPI(useNumber, disallow bool) api {
 			return d.Decode(t)
 		},
 		func(doc []byte, t any) error {
-			d := stdjson.NewDecoder(bytes.NewReader(doc))
+			d := stdjson.NewDecoder(bytes.NewReader(pad(doc)))
 			if useNumber {
 				d.UseNumber()
 			}
